@@ -106,7 +106,7 @@ fn drive(case: &Case, mode: Mode, rec: bool, st: Option<&mut Stats>) -> Driven {
     // Sliced by the instruction limit: the host grants a fresh budget and drives on in the same
     // manner (run() after eval / run(), next() after next()) until the program ends. However the
     // execution was sliced, what the program does must not change.
-    let paused = result.starts_with("Err(ErrorMsg(\"insn limit reached") && xs.verif_insn_meter() >= case.insn_limit;
+    let paused = result.starts_with("Err(ErrorMsg(") && is_limit_msg(&result, Some("insn")) && xs.verif_insn_meter() >= case.insn_limit;
     if paused && xs.is_running() {
         let budget = 20_000usize;
         xs.set_insn_limit(Some(budget)).unwrap();
